@@ -306,8 +306,22 @@ func c25(c *Ctx) {
 			k, isConst := b.Y.(*ssa.Const)
 			return isPhi && isConst && k.Value != nil && k.Value.ExactString() == "1"
 		}}
-		c.Guard("R4-decodesafe", fn, step, "payload[*] == payload[(len(payload) - 1)]")
-		c25LoopStart(c, "R4-decodesafe", fn, "(len(payload) - payload[(len(payload) - 1)])")
+		// two equivalent spellings of the scan: an index loop over payload that starts at len-padding, or a range
+		// loop over the sub-slice payload[len-padding:]. Either way the scan goes on to the next byte only past a
+		// byte equal to the pad byte.
+		_ = step
+		padRegion := loopHeaders(fn, "payload[(len(payload) - payload[(len(*) - 1)]):*")
+		whole := loopHeaders(fn, "payload")
+		switch {
+		case len(padRegion) == 1:
+			c.add("shape", "R4-decodesafe", c.P.Name(fn)+"#loop-start", Held, c.P.Pos(fn.Pos()), "pad scan ranges over payload[len-padding:]")
+			c.NextIterationGuarded("R4-decodesafe", fn, padRegion[0], "pad-scan", "payload[*] == payload[(len(payload) - 1)]")
+		case len(whole) == 1:
+			c25LoopStart(c, "R4-decodesafe", fn, "(len(payload) - payload[(len(payload) - 1)])")
+			c.NextIterationGuarded("R4-decodesafe", fn, whole[0], "pad-scan", "payload[*] == payload[(len(payload) - 1)]")
+		default:
+			c.add("shape", "R4-decodesafe", c.P.Name(fn)+"#loop-start", Undecided, c.P.Pos(fn.Pos()), fmt.Sprintf("expected one scan loop over the pad bytes, found %d over payload and %d over payload[len-padding:]", len(whole), len(padRegion)))
+		}
 	}
 	if fn := c.Fn(P + "aesBlockAndIV"); fn != nil {
 		sl := func(p string) Effect {
